@@ -89,15 +89,17 @@ class RG(G):
 CALLS = []      # every transpile call of this process, in order (witnesses)
 
 
-def impl_transpile(dev, N, gates, qc=None, M=None):
-    """-> (verdict, transpiled circuit | None, input circuit | None); the processor has M qubits (default N = qc.N)"""
+def impl_transpile(dev, N, gates, qc=None, M=None, proc=None):
+    """-> (verdict, transpiled circuit | None, input circuit | None); the processor has M qubits (default N = qc.N);
+    `proc`: a given processor object (object histories) instead of the shared one of (dev, M)"""
     if qc is None:
         try:
             qc = raw_circuit(N, gates)
         except Exception as e:
             return "unconstructible:" + type(e).__name__, None, None
-    CALLS.append(wit(dev, N, gates, M))
-    proc = processor(dev, N if M is None else M)
+    if proc is None:
+        CALLS.append(wit(dev, N, gates, M))
+        proc = processor(dev, N if M is None else M)
     try:
         r = proc.transpile(qc)
     except ValueError as e:
@@ -217,9 +219,168 @@ def field_defect(g):
     return None
 
 
+# ----------------------------------------------------------------------------------------
+# ONE processor, ONE circuit object, edited in place between the calls
+
+def content_of(qc):
+    return [[g.name, aslist(g.targets), aslist(g.controls),
+             None if g.arg_value is None else float(g.arg_value)] for g in qc.gates]
+
+
+def apply_edit(qc, e):
+    """in-place edits of a circuit object: ["arg", i, value] | ["targets", i, [..]] | ["controls", i, [..]] |
+    ["swap_roles", i] | ["replace", i, [name, targets, controls, value]] | ["append", gate] | ["remove", i]"""
+    kind = e[0]
+    if kind == "arg":
+        qc.gates[e[1]].arg_value = e[2]
+    elif kind == "targets":
+        qc.gates[e[1]].targets = list(e[2])
+    elif kind == "controls":
+        qc.gates[e[1]].controls = list(e[2])
+    elif kind == "swap_roles":
+        g = qc.gates[e[1]]
+        g.targets, g.controls = g.controls, g.targets
+    elif kind == "replace":
+        n, t, c, v = e[2]
+        qc.remove_gate_or_measurement(index=e[1])
+        qc.add_gate(n, targets=(t or None), controls=(c or None), arg_value=v, index=[e[1]])
+    elif kind == "append":
+        n, t, c, v = e[1]
+        qc.add_gate(n, targets=(t or None), controls=(c or None), arg_value=v)
+    elif kind == "remove":
+        qc.remove_gate_or_measurement(index=e[1])
+    else:
+        raise ValueError("unknown edit " + repr(e))
+
+
+def new_processor(dev, M):
+    import qutip_qip.device as D
+    return getattr(D, dev)(M)
+
+
+def pulses_of(proc):
+    coeffs = proc.get_full_coeffs()
+    tl = proc.get_full_tlist()
+    return (None if tl is None else np.asarray(tl, dtype=float)), np.asarray(coeffs, dtype=float)
+
+
+def same_as_fresh(dev, M, proc, qc, kind):
+    """`load_circuit` / `run_state(qc=)` on the processor in use against a NEW processor given a deep copy of the
+    circuit as it is now -> None | description of the difference"""
+    from copy import deepcopy
+    from qutip import basis, tensor
+    fresh, qf = new_processor(dev, M), deepcopy(qc)
+
+    def run(p, c):
+        try:
+            if kind == "load":
+                p.load_circuit(c)
+                return "ok", pulses_of(p)
+            psi = tensor(*[basis(2, 0)] * M) if dev != "DispersiveCavityQED" else None
+            if psi is None:
+                p.load_circuit(c)
+                return "ok", pulses_of(p)
+            res = p.run_state(init_state=psi, qc=c)
+            return "ok", (None, res.states[-1].full().ravel())
+        except Exception as e:
+            return "raises " + type(e).__name__, None
+
+    s1, a = run(proc, qc)
+    s2, b = run(fresh, qf)
+    if s1 != s2:
+        return f"{kind}: {s1} on the processor in use, {s2} on a fresh processor"
+    if a is None:
+        return None
+    if kind == "load" or dev == "DispersiveCavityQED":
+        (t1, c1), (t2, c2) = a, b
+        if (t1 is None) != (t2 is None) or c1.shape != c2.shape or (t1 is not None and t1.shape != t2.shape):
+            return f"{kind}: compiled pulses have another shape than those of a fresh processor for the circuit as it is now"
+        if (t1 is not None and np.abs(t1 - t2).max(initial=0) > 1e-9) or np.abs(c1 - c2).max(initial=0) > 1e-9:
+            return f"{kind}: compiled pulses differ from those of a fresh processor for the circuit as it is now"
+        return None
+    d = float(np.abs(a[1] - b[1]).max())
+    if d > 1e-6:
+        return f"run_state(qc=...): final state differs by {d:.3g} from that of a fresh processor"
+    return None
+
+
+def check_object_history(w):
+    """{"object_history": {"dev", "N", ["M"], "gates": initial content, "steps": [{"call": "transpile" | "load" |
+    "run_state"} | {"edit": [...]} ...]}}: one NEW processor and one circuit object; every call must meet the
+    property for the content the circuit has at that moment (transpile), resp. compile what a fresh processor
+    compiles for it (load_circuit / run_state)."""
+    o = w["object_history"]
+    dev, N = o["dev"], o["N"]
+    M = o.get("M", N)
+    if dev not in DEVS or not (1 <= N <= 6) or not buildable(dev, M):
+        return False, "outside the property's class (device / register size)"
+    try:
+        qc = raw_circuit(N, gates_of({"gates": o["gates"]}))
+    except Exception as e:
+        return False, f"not constructible ({type(e).__name__})"
+    proc = new_processor(dev, M)
+    native = list(proc.native_gates)
+    done = []
+    for k, stp in enumerate(o["steps"]):
+        if "edit" in stp:
+            try:
+                apply_edit(qc, stp["edit"])
+            except Exception as e:
+                return False, f"edit {stp['edit']} not applicable ({type(e).__name__})"
+            done.append("edit " + json.dumps(stp["edit"]))
+            continue
+        cw = {"dev": dev, "N": N, "gates": content_of(qc)}
+        if M != N:
+            cw["M"] = M
+        if not in_class(cw):
+            return False, "outside the property's class (content after the edits is not a circuit of library gates)"
+        where = (f"step {k + 1} of {len(o['steps'])} ({stp['call']} on the same {dev}({M}) and the same circuit object"
+                 + (", after " + "; ".join(done[-2:]) if done else "") + "): ")
+        if stp["call"] == "transpile":
+            st, r, _ = impl_transpile(dev, N, [], qc, M, proc)
+            f, d, _ = judge(cw, native, st, r, qc)
+            if f:
+                return True, where + d
+        else:
+            if any(not expressible(dev, g[0], native) for g in cw["gates"]):
+                continue
+            d = same_as_fresh(dev, M, proc, qc, stp["call"])
+            if d:
+                return True, where + d
+        done.append(stp["call"])
+    return False, "every call meets the property for the circuit as it is at that moment"
+
+
+def shrink_object_history(w):
+    """a failing object history with as few steps as still fail (it is self-contained, so this is cheap)"""
+    f, d = check_object_history(w)
+    if not f:
+        return w
+    m = re.match(r"step (\d+) of", d)
+    cur = json.loads(json.dumps(w))
+    if m:
+        cur["object_history"]["steps"] = cur["object_history"]["steps"][:int(m.group(1))]
+    i = 0
+    while i < len(cur["object_history"]["steps"]) - 1:
+        trial = json.loads(json.dumps(cur))
+        del trial["object_history"]["steps"][i]
+        try:
+            ok = check_object_history(trial)[0]
+        except Exception:
+            ok = False
+        if ok:
+            cur = trial
+        else:
+            i += 1
+    return cur
+
+
 def check_property(w):
     """The property on the real code -> (fails, detail): one transpile call, or a history of calls made in one
-    process, in order (`"reuse": true` = the circuit OBJECT of the previous call is transpiled again)."""
+    process, in order (`"reuse": true` = the circuit OBJECT of the previous call is transpiled again), or an object
+    history (one processor, one circuit object edited in place between the calls)."""
+    if "object_history" in w:
+        return check_object_history(w)
     if "history" not in w:
         return check_single(w)[:2]
     prev, n = None, len(w["history"])
@@ -246,6 +407,14 @@ def _check_single(w, qc0):
     st, r, qc = impl_transpile(dev, N, gates_of(w), qc0, M)
     if qc is None:
         return False, f"not constructible ({st})", None
+    return judge(w, native, st, r, qc)
+
+
+def judge(w, native, st, r, qc):
+    """the property for one transpile call: witness w (content of the circuit at the time of the call), verdict `st`,
+    result `r`, the circuit object `qc` -> (fails, detail, qc)"""
+    dev, N = w["dev"], w["N"]
+    M = w.get("M", N)
     bad = [g[0] for g in w["gates"] if not expressible(dev, g[0], native)]
     allowed = set(native) | MARKERS
     if st != "ok":
@@ -422,6 +591,114 @@ def size_cases():
                     yield dev, N, [p2("CNOT", 0, N - 1), placed("SNOT", (1,)), p2("ISWAP", N - 1, 0)], M
 
 
+def ohist(dev, N, gates, steps, M=None):
+    o = {"dev": dev, "N": N, "gates": gates, "steps": steps}
+    if M is not None and M != N:
+        o["M"] = M
+    return {"object_history": o}
+
+
+T, L, R = {"call": "transpile"}, {"call": "load"}, {"call": "run_state"}
+
+
+def ed(*e):
+    return {"edit": list(e)}
+
+
+def object_histories(full=True):
+    """(kind, witness): ONE processor and ONE circuit object; calls of transpile / load_circuit / run_state with in-place
+    edits of the circuit between them - edits that keep the number of gates (angle, qubits, roles, a gate replaced at
+    its position) and edits that change it"""
+    for dev in DEVS:
+        # the parameter sweep of a three-gate circuit, then structural edits
+        base = [["RX", [0], [], 0.3], ["CNOT", [2], [0], None], ["RY", [1], [], 0.2]]
+        yield "angle", ohist(dev, 3, base, [T, ed("arg", 0, 0.9), T, ed("arg", 2, -1.3), T, T])
+        yield "roles", ohist(dev, 3, base, [T, ed("swap_roles", 1), T, ed("targets", 1, [1]), T])
+        yield "replace", ohist(dev, 3, base, [T, ed("replace", 1, ["CNOT", [0], [2], None]), T,
+                                              ed("replace", 0, ["RZ", [0], [], 0.3]), T,
+                                              ed("replace", 2, ["ISWAP", [0, 2], [], None]), T])
+        yield "count", ohist(dev, 3, base, [T, ed("append", ["SNOT", [1], [], None]), T, ed("remove", 0), T,
+                                            ed("append", ["X", [0], [], None]), T])
+        yield "load", ohist(dev, 3, base, [L, ed("arg", 0, 0.9), L, ed("swap_roles", 1), L, T])
+        yield "mixed", ohist(dev, 3, base, [T, ed("arg", 0, 1.7), L, ed("replace", 1, ["CSIGN", [2], [1], None]), T,
+                                            ed("targets", 2, [0]), L])
+        yield "run", ohist(dev, 2, [["RX", [0], [], 0.3], ["ISWAP", [0, 1], [], None]],
+                           [R, ed("arg", 0, 2.1), R, ed("targets", 0, [1]), T])
+        if not full:
+            continue
+        # one two-qubit gate on every pair: the roles / the pair changed in place
+        for N in (2, 3, 4):
+            for a, b in itertools.permutations(range(N), 2):
+                c = [x for x in range(N) if x not in (a, b)]
+                steps = [T, ed("swap_roles", 0), T]
+                if c:
+                    steps += [ed("targets", 0, [c[0]]), T]
+                yield "pair", ohist(dev, N, [["CNOT", [b], [a], None]], steps)
+                yield "pair", ohist(dev, N, [["ISWAP", [a, b], [], None], ["RZ", [a], [], 0.4]],
+                                    [T, ed("replace", 0, ["CNOT", [b], [a], None]), T, ed("arg", 1, 0.8), T])
+        # a smaller circuit on a larger processor
+        yield "sizes", ohist(dev, 3, base, [T, ed("swap_roles", 1), T, ed("arg", 0, 0.5), L], M=4)
+
+
+def random_object_history(rng):
+    dev = rng.choice(DEVS)
+    N = rng.randint(2, 4)
+    names = ["RX", "RY", "RZ", "SNOT", "X", "CNOT", "CSIGN", "ISWAP", "SWAP"]
+
+    def gate():
+        while True:
+            n = rng.choice(names)
+            nc, nt = decomp.SHAPE[n]
+            if nc + nt <= N:
+                qs = rng.sample(range(N), nc + nt)
+                return [n, qs[:nt], qs[nt:], rng.choice([0.3, 1.1, -0.7, 2.5]) if n in PARAM else None]
+
+    gates = [gate() for _ in range(rng.randint(1, 4))]
+    cur = [list(g) for g in gates]
+    steps = [rng.choice([T, T, L])]
+    for _ in range(rng.randint(1, 4)):
+        i = rng.randrange(len(cur)) if cur else None
+        kind = rng.choice(["arg", "replace", "swap_roles", "append", "remove", "targets"])
+        if kind == "arg" and i is not None and cur[i][3] is not None:
+            v = rng.choice([0.2, 0.9, -1.4, 3.0])
+            steps.append(ed("arg", i, v))
+            cur[i][3] = v
+        elif kind == "replace" and i is not None:
+            g = gate()
+            steps.append(ed("replace", i, g))
+            cur[i] = list(g)
+        elif kind == "swap_roles" and i is not None and len(cur[i][1]) == 1 and len(cur[i][2]) == 1:
+            steps.append(ed("swap_roles", i))
+            cur[i][1], cur[i][2] = cur[i][2], cur[i][1]
+        elif kind == "append":
+            g = gate()
+            steps.append(ed("append", g))
+            cur.append(list(g))
+        elif kind == "remove" and len(cur) > 1:
+            steps.append(ed("remove", i))
+            cur.pop(i)
+        elif kind == "targets" and i is not None and len(cur[i][1]) == 1 and not cur[i][2]:
+            q = rng.randrange(N)
+            steps.append(ed("targets", i, [q]))
+            cur[i][1] = [q]
+        else:
+            continue
+        steps.append(rng.choice([T, T, T, L]))
+    return ohist(dev, N, gates, steps)
+
+
+def calls_of(w):
+    """the (device, sizes, gates) records of a witness of any kind"""
+    if "object_history" in w:
+        o = w["object_history"]
+        gs = list(o["gates"]) + [e["edit"][-1] for e in o["steps"] if "edit" in e and e["edit"][0] in ("replace", "append")]
+        c = {"dev": o["dev"], "N": o["N"], "gates": gs}
+        if "M" in o:
+            c["M"] = o["M"]
+        return [c]
+    return w["history"] if "history" in w else [w]
+
+
 def hwit(calls):
     out = []
     for c in calls:
@@ -440,6 +717,8 @@ def fresh_fails(w, timeout=300):
 def reproducible(w, ncalls, budget=26):
     """a witness that failed in this process -> one that fails when replayed from scratch (see props/_fresh.py);
     only calls inside the property's class are taken from the call log"""
+    if "object_history" in w:
+        return shrink_object_history(w)       # self-contained: its own processor and circuit object
     own = w["history"] if "history" in w else [w]
     strip = lambda c: {k: v for k, v in c.items() if k != "reuse"}
     log = CALLS[:ncalls]
@@ -656,6 +935,72 @@ class C13(PropertyCheck):
                     w = w2
                 res.disagree(inp, bad[0], bad[1], what, w)
 
+    def _run_object_histories(self, ctx, res, hists):
+        """hists: [(kind, witness)] - one NEW processor and one circuit object per witness; the model is stateless: every
+        transpile call is compared with the model's answer for the content the circuit has at that moment, every
+        load_circuit / run_state with a fresh processor on a deep copy"""
+        plans, lines = [], []
+        for kind, w in hists:
+            o = w["object_history"]
+            dev, N, M = o["dev"], o["N"], o.get("M")
+            try:
+                sim = raw_circuit(N, gates_of({"gates": o["gates"]}))     # the contents, edit by edit
+                contents = []
+                for stp in o["steps"]:
+                    if "edit" in stp:
+                        apply_edit(sim, stp["edit"])
+                    elif stp["call"] == "transpile":
+                        gs = gates_of({"gates": content_of(sim)})
+                        contents.append(gs)
+                        lines.append(self._line(dev, N, gs, M))
+            except Exception:
+                continue
+            plans.append((kind, w, contents))
+        outs = ctx.driver("drv_transpile").run(lines)
+        pos = 0
+        for kind, w, contents in plans:
+            o = w["object_history"]
+            dev, N, M = o["dev"], o["N"], o.get("M")
+            proc = new_processor(dev, N if M is None else M)
+            native = list(proc.native_gates)
+            qc = raw_circuit(N, gates_of({"gates": o["gates"]}))
+            first_bad, k_t, rewritten = None, 0, False
+            for k, stp in enumerate(o["steps"]):
+                if "edit" in stp:
+                    apply_edit(qc, stp["edit"])
+                    continue
+                if stp["call"] == "transpile":
+                    gs, ans = contents[k_t], outs[pos]
+                    k_t += 1
+                    pos += 1
+                    symvals = {g.sym: g.val for g in gs if g.sym is not None}
+                    st, mg = parse_model(ans, symvals)
+                    st = MODEL_ERR.get(st.strip(), st.strip())
+                    ist, r, _ = impl_transpile(dev, N, gs, qc, M, proc)
+                    rewritten = rewritten or st != "ok" or len(mg) != len(gs)
+                    bad = None
+                    if st != ist:
+                        bad = (st, ist, "verdict of transpile")
+                    elif st == "ok" and not same_gates13(mg, r.gates):
+                        bad = ([list(x) for x in mg][:30],
+                               [[g.name, aslist(g.targets), aslist(g.controls), g.arg_value] for g in r.gates][:30],
+                               "transpiled gate list")
+                else:
+                    bad = None
+                    if all(expressible(dev, g[0], native) for g in content_of(qc)):
+                        d = same_as_fresh(dev, N if M is None else M, proc, qc, stp["call"])
+                        if d:
+                            bad = ("what a fresh processor compiles for the circuit as it is now", d, stp["call"])
+                if bad is not None and first_bad is None:
+                    wk = json.loads(json.dumps(w))
+                    wk["object_history"]["steps"] = o["steps"][:k + 1]
+                    first_bad = (bad[0], bad[1], bad[2] + f" (step {k + 1} of {len(o['steps'])}, one processor, one "
+                                 "circuit object edited in place)", wk)
+            res.case(w, nontrivial=True, tags=["object-history", "object-history=" + kind,
+                                                f"dev={o['dev']}", f"steps={len(o['steps'])}"])
+            if first_bad is not None:
+                res.disagree(w, first_bad[0], first_bad[1], first_bad[2], first_bad[3])
+
     def _run_histories(self, ctx, res, hists):
         """hists: [(kind, [(dev, N, gates[, reuse]), ...])] - the calls of one history are made consecutively"""
         lines = [self._line(c[0], c[1], c[2]) for _, h in hists for c in h]
@@ -714,6 +1059,13 @@ class C13(PropertyCheck):
         self._run_cases(ctx, res, cases, "multi", kinds)
         hists = [(kind, h) for N in range(2, 6) for kind, h in systematic_histories(N)]
         self._run_histories(ctx, res, hists)
+        # one processor, one circuit object, in-place edits between the calls
+        oh = list(object_histories()) + [("random", random_object_history(rng)) for _ in range(300 if ctx.thorough else 60)]
+        self._run_object_histories(ctx, res, oh)
+        res.notes.append(f"object histories: {len(oh)} sequences of transpile / load_circuit / run_state on ONE processor and ONE "
+                         "circuit object with in-place edits between the calls (angle, qubits, roles, a gate replaced at its "
+                         "position, gates appended / removed); transpile against the stateless model on the current content, "
+                         "load_circuit / run_state against a fresh processor on a deep copy")
         # the circuit's register against the processor's
         sz = list(size_cases())
         self._run_cases(ctx, res, sz, "sizes", ["sizes=" + ("smaller" if c[1] < c[3] else "larger") for c in sz])
@@ -782,7 +1134,7 @@ class C13(PropertyCheck):
                 self.rz = bool(devices.route_rzx())
             except TranslatorError:
                 self.rz = True             # unrecognised source: strict reading
-        for c in (w["history"] if "history" in w else [w]):
+        for c in calls_of(w):
             M, N = c.get("M", c["N"]), c["N"]
             if not self.guard and (N > M or (N < M and c["dev"] == "CircularSpinChain")):
                 return False
@@ -792,7 +1144,7 @@ class C13(PropertyCheck):
         return True
 
     def finding_matches(self, witness, finding):
-        cs = witness["history"] if "history" in witness else [witness]
+        cs = calls_of(witness)
         if finding.get("class") == "circuit-size-differs-from-processor":
             return any(c.get("M", c["N"]) != c["N"] for c in cs)
         if finding.get("class") == "rzx-unrouted":
@@ -876,19 +1228,21 @@ class C13(PropertyCheck):
 
     def oracle_search(self, ctx, budget_s):
         t0 = time.time()
-        for w in self._systematic():
+        for w in itertools.chain((w for _, w in object_histories()), self._systematic()):
             if not self._in_theorem_class(w):
                 continue
             f, d = check_property(w)
             if f:
-                yield reproducible(w, len(CALLS)), d
+                w = reproducible(w, len(CALLS))
+                yield w, (check_property(w)[1] if "object_history" in w else d)
             if time.time() - t0 > budget_s:
                 return
         while time.time() - t0 < budget_s:
-            w = self._rand_witness(ctx.rng)
+            w = random_object_history(ctx.rng) if ctx.rng.random() < 0.3 else self._rand_witness(ctx.rng)
             f, d = check_property(w)
             if f:
-                yield w, d
+                w = reproducible(w, len(CALLS))
+                yield w, (check_property(w)[1] if "object_history" in w else d)
 
     def oracle_always(self, ctx):
         # minimal systematic part: the first placement of each three-qubit gate on 3 and 4 qubits per device
@@ -910,12 +1264,13 @@ class C13(PropertyCheck):
                 if n >= 2:
                     break
         n = 0
-        for w in itertools.chain(self._multi(4), self._sizes(), self._rzx()):
+        for w in itertools.chain((w for _, w in object_histories(full=False)), self._multi(4), self._sizes(), self._rzx()):
             if not self._in_theorem_class(w):
                 continue
             f, d = check_property(w)
             if f:
-                yield reproducible(w, len(CALLS)), d
+                w = reproducible(w, len(CALLS))
+                yield w, (check_property(w)[1] if "object_history" in w else d)
                 n += 1
                 if n >= 2:
                     break
